@@ -385,3 +385,27 @@ def geometry_failure(c, full, rel=Fr(1, 10 ** 9)):
             return ("outputs of face %d (signs %s) do not tile its clipped part: area %s, expected %s"
                     % (i, signs, [float(x) for x in got], [float(x) for x in want]))
     return None
+
+
+def near_band_class(c, failure):
+    """known finding `near_band_cut_leaves_face`: matched on the input class (a selected face with a corner in front
+    whose offset is below 100 tol and a corner strictly inside the band, not exactly on the plane) and on the kind of
+    failure (a vertex outside its face / clipped area mismatch), never on the property id alone."""
+    if not failure or not c.get("has_near"):
+        return None
+    if not any(k in failure for k in ("lies outside input face", "do not tile")):
+        return None
+    V = [F3(v) for v in c["vertices"]]
+    ref, n = F3(c["ref"]), F3(c["normal"])
+    nv = len(V)
+    for i, f in enumerate(c["faces"]):
+        if c["mask"] is not None and not c["mask"][i]:
+            continue
+        if not all(0 <= k < nv for k in f):
+            continue
+        ds = [dot(n, sub(V[k], ref)) for k in f]
+        front = [x for x in ds if x > TOL]
+        inband = [x for x in ds if x != 0 and abs(x) <= TOL]
+        if front and inband and min(front) < 100 * TOL:
+            return "near_band_cut_leaves_face"
+    return None
